@@ -71,7 +71,7 @@ def run(tier, seed, replay):
     common.proof_part(out, env, "C10", ties=["Tie/EnvTie.v"])
     specs = []
     for name, files, pats, o in fault_cases():
-        for fl in (FLAGSETS if tier == "thorough" else FLAGSETS[:3]):
+        for fl in (FLAGSETS if tier == "thorough" else FLAGSETS[:4]):
             sp = common.mk_spec(len(specs), files, patterns=pats, flags=dict(fl), output=o, keep_out=True)
             sp["what"] = [name]
             specs.append(sp)
@@ -155,12 +155,98 @@ def run(tier, seed, replay):
                 wrote = open(o).read() != "OLD\n"
                 rep = {"files": [{"path": "c.yaml", "content": open(cfgp).read()[:2000]}], "patterns": ["c.yaml"], "output": "o.go", "flags": {"quiet": quiet}, "version": "", "errors_expected": nerr,
                        "process_exit": p.returncode, "wrote": wrote}
+                if quiet and (p.stdout or p.stderr):
+                    out.violation("binary-quiet-prints:many-errors", "--quiet printed to %s" % ("stdout" if p.stdout else "stderr"), dict(rep, stderr=p.stderr[-500:], stdout=p.stdout[-500:]))
                 if (p.returncode == 0) != wrote or (nerr > 0 and p.returncode == 0) or (nerr == 0 and p.returncode != 0):
                     out.violation("process-exit-status", "a build with %d errors exits %d and %s the output file" % (nerr, p.returncode, "rewrites" if wrote else "leaves"), rep)
                 elif p.returncode not in (0, 1):
                     out.broke("correspondence:C10 process exit status", dict(rep, note="the model (main.go: os.Exit(1)) says exit 1"))
     finally:
         _sh.rmtree(tmpb, ignore_errors=True)
+    # the real binary under environment faults and argv shapes: process exit status, both streams, the -o path
+    tmpb = _tf.mkdtemp(prefix="gvc10b_", dir="/dev/shm")
+    try:
+        gb = os.path.join(tooldir, "gontainer")
+        def fresh():
+            _sh.rmtree(os.path.join(tmpb, "w"), ignore_errors=True)
+            os.makedirs(os.path.join(tmpb, "w", "cfg"))
+            os.makedirs(os.path.join(tmpb, "w", "out"))
+            open(os.path.join(tmpb, "w", "cfg", "a.yaml"), "w").write(VALID)
+            open(os.path.join(tmpb, "w", "cfg", "b.yaml"), "w").write("parameters: {z: 2}\n")
+            open(os.path.join(tmpb, "w", "cfg", "bad.yml"), "w").write(DEFECTS["grammar"])
+            open(os.path.join(tmpb, "w", "out", "gen.go"), "w").write("OLD\n")
+            os.makedirs(os.path.join(tmpb, "w", "out", "dir.go"))
+        ARGV = [  # (name, argv after "build", expected exit 0?, -o path to watch)
+            ("ok", ["-i", "cfg/a.yaml", "-o", "out/gen.go"], True, "out/gen.go"),
+            ("ok-long-flags", ["--input", "cfg/a.yaml", "--output", "out/gen.go"], True, "out/gen.go"),
+            ("ok-equals", ["--input=cfg/a.yaml", "--output=out/gen.go"], True, "out/gen.go"),
+            ("ok-two-inputs", ["-i", "cfg/a.yaml", "-i", "cfg/b.yaml", "-o", "out/gen.go"], True, "out/gen.go"),
+            ("ok-flags-first", ["-o", "out/gen.go", "--stub", "-i", "cfg/*.yaml"], True, "out/gen.go"),
+            ("ok-new-file", ["-i", "cfg/a.yaml", "-o", "out/new.go"], True, "out/new.go"),
+            ("no-input-flag", ["-o", "out/gen.go"], False, "out/gen.go"),
+            ("no-output-flag", ["-i", "cfg/a.yaml"], False, "out/gen.go"),
+            ("unknown-flag", ["-i", "cfg/a.yaml", "-o", "out/gen.go", "--nope"], False, "out/gen.go"),
+            ("missing-input", ["-i", "cfg/none.yaml", "-o", "out/gen.go"], False, "out/gen.go"),
+            ("empty-glob", ["-i", "cfg/*.json", "-o", "out/gen.go"], False, "out/gen.go"),
+            ("invalid-glob", ["-i", "cfg/[a.yaml", "-o", "out/gen.go"], False, "out/gen.go"),
+            ("input-is-dir", ["-i", "cfg", "-o", "out/gen.go"], False, "out/gen.go"),
+            ("matched-twice", ["-i", "cfg/*.yaml", "-i", "cfg/a.yaml", "-o", "out/gen.go"], False, "out/gen.go"),
+            ("defect", ["-i", "cfg/bad.yml", "-o", "out/gen.go"], False, "out/gen.go"),
+            ("defect-after-ok", ["-i", "cfg/a.yaml", "-i", "cfg/bad.yml", "-o", "out/gen.go"], False, "out/gen.go"),
+            ("missing-output-dir", ["-i", "cfg/a.yaml", "-o", "nodir/gen.go"], False, "nodir/gen.go"),
+            ("output-is-dir", ["-i", "cfg/a.yaml", "-o", "out/dir.go"], False, "out/dir.go"),
+            ("output-is-input", ["-i", "cfg/a.yaml", "-o", "cfg/b.yaml"], True, "cfg/b.yaml"),
+        ]
+        def state(pth):
+            if os.path.isdir(pth):
+                return "dir"
+            return open(pth, "rb").read() if os.path.exists(pth) else None
+        for name, argv, want_ok, watch in ARGV:
+            res = {}
+            for quiet in (False, True):
+                fresh()
+                wp = os.path.join(tmpb, "w", watch)
+                before = state(wp)
+                p = _sp.run([gb, "build"] + argv + (["--quiet"] if quiet else []), cwd=os.path.join(tmpb, "w"), stdout=_sp.PIPE, stderr=_sp.PIPE, timeout=120)
+                dist["binary_runs"] += 1
+                after = state(wp)
+                rep = {"argv": argv, "quiet": quiet, "process_exit": p.returncode, "stdout": p.stdout.decode("utf-8", "replace")[-1500:], "stderr": p.stderr.decode("utf-8", "replace")[-800:], "watch": watch}
+                res[quiet] = (p.returncode == 0, after)
+                if (p.returncode == 0) != want_ok:
+                    out.violation("binary-exit:" + name, "gontainer build %s exits %d, expected %s" % (" ".join(argv), p.returncode, "0" if want_ok else "non-zero"), rep)
+                if p.returncode == 0 and not (isinstance(after, bytes) and after.lstrip().startswith((b"// Code generated", b"//go:build gontainerstub")) and after.rstrip().endswith(b"}")):
+                    out.violation("binary-exit0-no-output:" + name, "exit 0 but the -o path does not hold a complete generated source", rep)
+                if p.returncode != 0 and after != before:
+                    out.violation("binary-failure-touches-output:" + name, "non-zero exit but the -o path changed", rep)
+                if quiet and name not in ("no-input-flag", "no-output-flag", "unknown-flag") and (p.stdout or p.stderr):
+                    # (a command line cobra itself refuses is not a build run; its usage error is printed by cobra)
+                    out.violation("binary-quiet-prints:" + name, "--quiet printed to %s" % ("stdout" if p.stdout else "stderr"), rep)
+            if res[False] != res[True]:
+                out.violation("binary-quiet-changes:" + name, "--quiet changes the exit status or the file effect", {"argv": argv})
+    finally:
+        _sh.rmtree(tmpb, ignore_errors=True)
+    # every file written with exit 0 is syntactically valid Go in canonical gofmt form (the complete source, not a prefix of it)
+    tmpf = _tf.mkdtemp(prefix="gvc10f_", dir="/dev/shm")
+    try:
+        seen = {}
+        for sp, ob in zip(specs, obs):
+            if ob.get("exit") == 0 and ob.get("out_content") and ob["out_after"].get("hash") not in seen:
+                seen[ob["out_after"].get("hash")] = (sp, ob)
+        names = {}
+        for j, (h, (sp, ob)) in enumerate(seen.items()):
+            fn = "f%d.go" % j
+            names[fn] = (sp, ob)
+            open(os.path.join(tmpf, fn), "wb").write(ob["out_content"].encode("utf-8", "surrogateescape"))
+        if names:
+            p = _sp.run(["gofmt", "-l", "-e"] + sorted(names), cwd=tmpf, stdout=_sp.PIPE, stderr=_sp.PIPE, text=True, timeout=300)
+            bad = set(l.strip() for l in p.stdout.split("\n") if l.strip()) | set(l.split(":")[0] for l in p.stderr.split("\n") if ".go:" in l)
+            for fn in sorted(bad):
+                if fn in names:
+                    sp, ob = names[fn]
+                    out.violation("exit0-not-go:" + (sp.get("what") or ["random"])[0].split("/")[0], "exit 0 but the written file is not well-formed gofmt-canonical Go: %s" % (p.stderr[:300] or "gofmt would rewrite it"), common.slim(sp, ob))
+        dist["gofmt_checked_outputs"] = len(names)
+    finally:
+        _sh.rmtree(tmpf, ignore_errors=True)
     # quiet / non-quiet pairs of the fault matrix must agree on exit and file effect
     idx = {}
     for k, sp in enumerate(specs):
